@@ -102,6 +102,9 @@ fn test(c: &Case, st: &mut Stats) -> TestResult {
             let bytes = w.bytes();
             if let Some(ok) = check_validate(&bytes, &w.creds, st, "hand-assembled message")? {
                 st.class(if ok { "wire: validates" } else { "wire: does not validate" });
+                if w.attrs.iter().any(|a| matches!(a, WireAttr::Replay)) {
+                    st.class("wire: integrity value replayed from a shorter prefix of the message (must not validate)");
+                }
                 let sha_lens: Vec<u8> = w
                     .attrs
                     .iter()
@@ -178,6 +181,23 @@ fn test(c: &Case, st: &mut Stats) -> TestResult {
             match &spec.creds {
                 Creds::Short { password } => {
                     alts.push(Creds::Short { password: format!("{}x", password) });
+                    // keys that agree on a prefix: the first 64 / 63 / 32 / 16 bytes (one hash block and
+                    // parts of it), everything but the last character, one more NUL
+                    for n in [64usize, 63, 65, 32, 16] {
+                        if password.len() > n {
+                            let mut cut = n;
+                            while !password.is_char_boundary(cut) {
+                                cut -= 1;
+                            }
+                            alts.push(Creds::Short { password: password[..cut].to_string() });
+                            alts.push(Creds::Short { password: format!("{}{}", &password[..cut], "Z".repeat(password.len() - cut)) });
+                        }
+                    }
+                    let mut shorter = password.clone();
+                    if shorter.pop().is_some() {
+                        alts.push(Creds::Short { password: shorter });
+                    }
+                    alts.push(Creds::Short { password: format!("{}\u{0}", password) });
                     alts.push(Creds::Long {
                         user: password.clone(),
                         realm: String::new(),
@@ -234,8 +254,17 @@ fn test(c: &Case, st: &mut Stats) -> TestResult {
                 }
             }
             let msg = Message::from_bytes(&built).unwrap();
+            // HMAC pads a key shorter than its 64-byte block with zero bytes: keys that differ only in
+            // trailing NUL bytes are the same HMAC key, not "another key"
+            let padded = |k: &[u8]| -> Vec<u8> {
+                let mut v = k.to_vec();
+                if v.len() < 64 {
+                    v.resize(64, 0);
+                }
+                v
+            };
             for alt in &alts {
-                if alt.key() == key {
+                if padded(&alt.key()) == padded(&key) {
                     st.class("alternative credentials deriving the same key (skipped)");
                     continue;
                 }
@@ -409,11 +438,12 @@ pub fn run(ctx: &Ctx) -> EvidenceMeta {
                 any::<bool>(),
                 gen::creds_strategy(),
             )
-                .prop_map(|(mtype, tid, mut attrs, tail, fp, creds)| {
+                .prop_map(|(mtype, tid, mut attrs, mut tail, fp, creds)| {
                     attrs.retain(|a| match a {
                         WireAttr::Plain { ty, .. } => *ty != T_MI && *ty != T_SHA256 && *ty != refstun::T_FP,
                         _ => true,
                     });
+                    gen::splice(&mut attrs, &mut tail, tid);
                     attrs.extend(tail);
                     if fp {
                         attrs.push(WireAttr::Fp { xor: 0 });
